@@ -1510,13 +1510,16 @@ func (m *repoManager) setNodeNote(uuid dvid.UUID, note string) error {
 		return ErrInvalidVersion
 	}
 
+	// The node's lock and the repo's lock are taken one after the other, never nested: other
+	// paths take them in the opposite order (saving a repo locks the repo, then each node).
+	t := time.Now()
 	node.Lock()
 	node.note = note
-	t := time.Now()
-	r.Lock()
-	r.updated, node.updated = t, t
-	r.Unlock()
+	node.updated = t
 	node.Unlock()
+	r.Lock()
+	r.updated = t
+	r.Unlock()
 	return r.save()
 }
 
@@ -1565,10 +1568,13 @@ func (m *repoManager) addToNodeLog(uuid dvid.UUID, msgs []string) error {
 		return err
 	}
 	t := time.Now()
-	r.Lock()
+	// The node's lock and the repo's lock are taken one after the other, never nested: other
+	// paths take them in the opposite order (saving a repo locks the repo, then each node).
 	node.Lock()
-	r.updated, node.updated = t, t
+	node.updated = t
 	node.Unlock()
+	r.Lock()
+	r.updated = t
 	r.Unlock()
 	return r.save()
 }
@@ -1692,10 +1698,13 @@ func (m *repoManager) commit(uuid dvid.UUID, note string, log []string) error {
 	}
 	r.RUnlock()
 
-	r.Lock()
+	// The node's lock and the repo's lock are taken one after the other, never nested: other
+	// paths take them in the opposite order (saving a repo locks the repo, then each node).
 	node.Lock()
-	r.updated, node.updated = t, t
+	node.updated = t
 	node.Unlock()
+	r.Lock()
+	r.updated = t
 	r.Unlock()
 	return r.save()
 }
